@@ -93,6 +93,10 @@ func next(tag, kind string) drawRec {
 	if cur == nil {
 		panic("zzvr: no replay loaded (native mode needs VSYM_REPLAY)")
 	}
+	if pos >= len(cur.Draws) && len(Out.Failed) > 0 {
+		// the recorded path ended at the assertion that failed: nothing more to replay
+		panic(stopPanic{})
+	}
 	if pos >= len(cur.Draws) {
 		panic(divergePanic{fmt.Sprintf("draw %q beyond the recorded %d draws", tag, len(cur.Draws))})
 	}
